@@ -94,16 +94,38 @@ class EnvProblem(Problem):
         self.floatVariableNames = np.array([f"x{i}" for i in range(N)], dtype=str)
         self.lowerBoundOfFloatVariables = np.array(lower, dtype=np.double)
         self.upperBoundOfFloatVariables = np.array(upper, dtype=np.double)
+        self.spell = None
         if int_bounds:      # bounds written as integers by the user (integer-typed arrays)
             self.lowerBoundOfFloatVariables = np.array([int(v) for v in lower], dtype=np.int64)
             self.upperBoundOfFloatVariables = np.array([int(v) for v in upper], dtype=np.int64)
         self.answer = answer
         self.calls = 0
         self.log = []
+        self._lower0, self._upper0 = list(lower), list(upper)
         self.attempts = []   # every y asked, including failed ones
         self.local_fn = None     # objective used while the harness runs a local refinement (does not consume answers)
         self.in_local = False
         self.local_log = []
+
+    def respell(self, how):
+        """the same box written the way another user would write it: 'readonly' (float arrays that refuse writes),
+        'tuple' (tuples of Python floats), 'list' (plain lists), 'column' (a non-contiguous view of a 2-D array)"""
+        lo, up = [float(v) for v in self._lower0], [float(v) for v in self._upper0]
+        self.spell = how
+        if how == "readonly":
+            a, b = np.array(lo, dtype=np.double), np.array(up, dtype=np.double)
+            a.setflags(write=False)
+            b.setflags(write=False)
+        elif how == "tuple":
+            a, b = tuple(lo), tuple(up)
+        elif how == "list":
+            a, b = list(lo), list(up)
+        elif how == "column":
+            m = np.array([lo, up, lo], dtype=np.double).T.copy()      # columns of a (N, 3) table: strided views
+            a, b = m[:, 0], m[:, 1]
+        else:
+            raise KeyError(how)
+        self.lowerBoundOfFloatVariables, self.upperBoundOfFloatVariables = a, b
 
     def Calculate(self, point, functionValue):
         if self.in_local:
@@ -203,7 +225,7 @@ class Snapshot:
 class SolverRun:
     def __init__(self, N=1, lower=None, upper=None, r=2.0, eps=0.01, itersLimit=20000, answer=None,
                  density=None, refine=False, listeners=(), problem=None, fresh_holder=False, other=None,
-                 int_bounds=False, constraints=0, probe=False, start_point=False, discrete=0):
+                 int_bounds=False, constraints=0, probe=False, start_point=False, discrete=0, spell=None):
         lower = [0.0] * N if lower is None else lower
         upper = [1.0] * N if upper is None else upper
         self.N = N
@@ -211,6 +233,12 @@ class SolverRun:
                                                                              int_bounds, constraints, discrete)
         self.probe = probe      # read-only queries of solver.evolvent between the calls
         kw = dict(eps=eps, r=r, itersLimit=itersLimit, refineSolution=refine)
+        if spell in ("readonly", "tuple", "list", "column") and problem is None:
+            self.problem.respell(spell)
+        elif spell == "npscalar":
+            # the same parameter values as numpy scalars / Python ints, as they come out of a configuration table
+            kw = dict(eps=np.float64(eps), r=np.float64(r) if r != int(r) else int(r), itersLimit=np.int64(itersLimit),
+                      refineSolution=np.bool_(refine))
         if density is not None:
             kw["evolventDensity"] = density
         if start_point:
